@@ -274,3 +274,28 @@ Example real_maxconns_keeps_permit_after_cancel :
   let s := lexec 2 [[LReq false]; [LReq false]; [LCancel 0; LCancel 1; LReq false]] [0; 1; 2; 2; 2] in
   (linbody s, lc s, map lres (lthreads s)) = (2, 2, [[]; []; [1; 1; 0]]%Z).
 Proof. vm_compute. reflexivity. Qed.
+
+(* (h) fx Walk that skips the worker pool when the source LOOKS pre-filled - a buffered source
+   that is exactly full, with no more items than workers, at the moment the stage is attached
+   (seeded change C05-7).  A full channel need not be closed: an open Buffer(k) / caller's
+   channel keeps delivering, and the stage runs as walkUnlimited = one slot per item, whatever
+   WithWorkers(n) said.  The shape of the source does not enter the worker-pool LTS; the
+   variant is the LTS started with the wrong capacity. *)
+Definition prefilled_wexec (full_at_attach : bool) (n : nat) (items : list wbeh) (sched : list nat) : wstate :=
+  run wstep (winit WFx (if full_at_attach then length items else n) items) sched.
+
+(* WithWorkers(2), the source holds 2 items when Walk is attached and 4 more arrive while the
+   walk function is parked: 6 invocations inside at once *)
+Theorem prefilled_source_cap_exceeded_refuted :
+  exists n items sched, 0 < n /\ n < wrunning (prefilled_wexec true n items sched).
+Proof.
+  exists 2, (bp [false; false; false; false; false; false]),
+         [0; 0;0;0; 1; 0;0;0; 2; 0;0;0; 3; 0;0;0; 4; 0;0;0; 5; 0;0;0; 6].
+  vm_compute. split; repeat constructor.
+Qed.
+
+Example real_fx_ignores_source_shape :
+  let s := prefilled_wexec false 2 (bp [false; false; false; false; false; false])
+             [0; 0;0;0; 1; 0;0;0; 2; 0;0;0; 3; 0;0;0; 4; 0;0;0; 5; 0;0;0; 6] in
+  (wrunning s, wc s, wd s) = (2, 2, DAcq (Some BRet)).
+Proof. vm_compute. reflexivity. Qed.
